@@ -95,6 +95,8 @@ Section Rev.
   Definition insert_nodes (d : db) (count : Z) (values : qvalues) (als : list bytes) (ids : qids)
     : step (Z * list element) :=
     let count := Z.max count (lenZ als) in
+    if fix_empty_alias rv && existsb (fun al : bytes => match al with [] => true | _ => false end) als then StErr d ENotAllowed
+    else
     match resolve_ids d ids with
     | SErr e => StErr d e
     | SPanic => StPanic d
@@ -247,7 +249,8 @@ Section Rev.
       match q with
       | QId id => if id =? 0 then let '(d1, a) := insert_values_new d acc None kvs in StOk d1 a
                   else StErr d e
-      | QAlias al => let '(d1, a) := insert_values_new d acc (Some al) kvs in StOk d1 a
+      | QAlias al => if fix_empty_alias rv && match al with [] => true | _ => false end then StErr d ENotAllowed
+                     else let '(d1, a) := insert_values_new d acc (Some al) kvs in StOk d1 a
       end
     end.
 
